@@ -750,11 +750,12 @@ def _parse_topology_keys(mol: dict, lit: LineIterator) -> dict:
     # NOTE: currently molecular_charge and molecular_multiplicity have default values,
     # so some programs may not provide those required keys
     # QCEngineRecords files follow Molecule v1 for some reason, despite being uploaded in 2019
-    should_be_required_keys = {"schema_name", "schema_version", "provenance"}
-    topology_keys = {
+    # Tuples, not sets: the order of the warnings and the first error must not depend on the hash seed.
+    should_be_required_keys = ("schema_name", "schema_version", "provenance")
+    topology_keys = (
         "symbols",
         "geometry",
-    }
+    )
     for key in should_be_required_keys:
         if key not in mol:
             warn(
@@ -1078,8 +1079,8 @@ def _parse_input_keys(result: dict, lit: LineIterator) -> dict:
 
     """
     # QCEngineRecords input files don't actually specify a name or version
-    should_be_required_keys = {"schema_name", "schema_version"}
-    input_keys = {"molecule", "driver", "model"}
+    should_be_required_keys = ("schema_name", "schema_version")
+    input_keys = ("molecule", "driver", "model")
     for key in should_be_required_keys:
         if key not in result:
             warn(
@@ -1342,8 +1343,8 @@ def _parse_output_keys(result: dict, lit: LineIterator) -> dict:
         It may contain ``energy`` key and corresponding values as well.
 
     """
-    should_be_required_keys = {"schema_name", "schema_version"}
-    output_keys = {"provenance", "properties", "success", "return_result"}
+    should_be_required_keys = ("schema_name", "schema_version")
+    output_keys = ("provenance", "properties", "success", "return_result")
     for key in should_be_required_keys:
         if key not in result:
             warn(
